@@ -97,8 +97,12 @@ def _esc(acc, record=True, only=None):
                 if bad:
                     break
                 bp = mk()
+                # (the decoder options of to() are for a base given as text: they never touch tokens already parsed)
                 for how, fn in (("rel.to(base)", lambda: rel.to(bp)), ("base.to(rel)", lambda: bp.to(rel)),
-                                ("base.to(text)", lambda: bp.to(text, unicode_escape=False))):
+                                ("base.to(text)", lambda: bp.to(text, unicode_escape=False)),
+                                ("rel.to(base, uri_decode=True)", lambda: rel.to(bp, uri_decode=True)),
+                                ("rel.to(base, unicode_escape=False, uri_decode=True)",
+                                 lambda: rel.to(bp, unicode_escape=False, uri_decode=True))):
                     try:
                         res = fn()
                     except RelativeJSONPointerError:
